@@ -554,3 +554,11 @@ Lemma C01_example_proof :
   let h := [OSubscribe TCl "a"; OSubscribe TCl "b"; OResp "1" "n1" (PCds [cl "a"; cl "b"; cl "zz"]); OResp "2" "n2" (PCds [cl "b"])] in
   map (fun n => is_some (aget n (tget TCl (s_cache (final c o h))))) ["a"; "b"; "zz"] = [false; true; false].
 Proof. vm_compute. reflexivity. Qed.
+
+Lemma run_app c o s h1 h2 : fst (run c o s (h1 ++ h2)) = fst (run c o (fst (run c o s h1)) h2).
+Proof.
+  revert s. induction h1 as [|x h1 IH]; intros s; cbn [app run]; [reflexivity|].
+  destruct (step c o s x) as [s1 ot]. specialize (IH s1).
+  destruct (run c o s1 (h1 ++ h2)) as [sa oa]. destruct (run c o s1 h1) as [sb ob]. cbn [fst] in *. exact IH.
+Qed.
+
